@@ -271,6 +271,36 @@ def run(tier, seed):
         diff = {k: (exp[k], m.get(k)) for k in exp if m.get(k) != exp[k]}
         if diff:
             bad.append(("class member parsed with different attributes %s  [%s]" % (diff, src.split("\n")[0]), {"source": src, "member": m}))
+    # ---- 3b. local declarations: [final] [@tracked] type name [= init] in every statement position (grammar.md: ["final"] variableDeclaration,
+    #          variableDeclaration = annotations? type identifier ...)
+    lj, lmeta = [], []
+    for final in (False, True):
+        for tracked in (False, True):
+            for ty, init in (("qubit", ""), ("qubit[2]", ""), ("int", " = 3"), ("float[]", " = {1.5f}"), ("Box<int>", " = null")):
+                if tracked and not ty.startswith("qubit"):
+                    continue
+                decl = "%s%s%s v%s;" % ("final " if final else "", "@tracked " if tracked else "", ty, init)
+                for where, wrap, pick in (("function body", "function main() -> void { %s }\n", lambda a: a["funcs"][0]["body"][0]),
+                                          ("nested block", "function main() -> void { int i = 0; { %s } }\n", lambda a: a["funcs"][0]["body"][1]["b"][0]),
+                                          ("while body", "function main() -> void { while (true) { %s } }\n", lambda a: a["funcs"][0]["body"][0]["b"]["b"][0]),
+                                          ("if branch", "function main() -> void { if (true) { } else { %s } }\n", lambda a: a["funcs"][0]["body"][0]["e"]["b"][0]),
+                                          ("after another statement", "function main() -> void { echo(1); %s echo(2); }\n", lambda a: a["funcs"][0]["body"][1]),
+                                          ("method body", "class K { public constructor() -> K = default; public function m() -> void { %s } }\nfunction main() -> void { }\n",
+                                           lambda a: [m for m in a["classes"][0]["members"] if m.get("k") == "method"][0]["body"][0])):
+                    lmeta.append((decl, where, pick, final, tracked))
+                    lj.append({"id": len(lj), "stage": "ast", "src": wrap % decl})
+    lres = runner.run_jobs(lj)
+    for i, (decl, where, pick, final, tracked) in enumerate(lmeta):
+        r = lres[i]
+        if r["status"] != "ok":
+            bad.append(("declaration '%s' in a %s follows the documented grammar but is rejected: %s" % (decl, where, r.get("what", r["status"]).strip()), {"source": lj[i]["src"], "result": r}))
+            continue
+        try:
+            st = pick(r["ast"])
+        except (KeyError, IndexError, TypeError):
+            st = None
+        if not st or st.get("k") != "decl" or st.get("n") != "v" or bool(st.get("final")) != final or bool(st.get("tracked")) != tracked:
+            bad.append(("declaration '%s' in a %s parsed as %s" % (decl, where, {k: st.get(k) for k in ("k", "n", "final", "tracked")} if st else None), {"source": lj[i]["src"], "got": st}))
     # ---- 4. spellings the documentation declares equivalent, and one type written in different syntactic positions
     eq_pairs, type_cases = spelling_cases()
     ej = []
